@@ -2,7 +2,6 @@
    any tree. *)
 From V.model Require Import Base Deb822Lex Deb822Parse Grammar.
 From V.proofs Require Import BaseP Deb822LexP Deb822ParseP GrammarLexP GrammarParseP.
-Set Default Timeout 60.
 
 (* ---- general list laws of the accessors (any paragraph tree) ---- *)
 Lemma keys_items p : keys p = map fst (items p).
